@@ -175,7 +175,7 @@ func runCase(c Case) (string, stats) {
 	}
 	for oi, op := range c.Ops {
 		boundaryB := sendState == "clean" && !readOpen && !stalled
-		if len(queue) > 0 && (op.K == "a2b" || op.K == "bopen" || op.K == "bstall" || op.K == "mode") {
+		if len(queue) > 0 && (op.K == "a2b" || op.K == "bopen" || op.K == "bstall" || op.K == "mode" || op.K == "rekey") {
 			for len(queue) > 0 { // these operations want an empty pipe
 				if v := recvQueued(oi); v != "" {
 					return v, st
@@ -384,6 +384,24 @@ func runCase(c Case) (string, stats) {
 				return fmt.Sprintf("op %d: EndMessageRead: %v", oi, err), st
 			}
 			readOpen = false
+		case "rekey":
+			// the same key installed again on both streams: a NEW session (fresh IVs, counters at zero), so export is
+			// refused again until a protected frame has travelled in both directions under it
+			if !keyed || !boundaryB || handed {
+				continue
+			}
+			if v := auditAll(); v != "" {
+				return fmt.Sprintf("op %d: %s", oi, v), st
+			}
+			if err := A.SetSymmetricKey(key); err != nil {
+				return "harness: " + err.Error(), st
+			}
+			if err := B.SetSymmetricKey(key); err != nil {
+				return "harness: " + err.Error(), st
+			}
+			tapA.rd, _ = kit.NewRefDir(key)
+			tapB.rd, _ = kit.NewRefDir(key)
+			modeOn, sentProt, recvProt = true, 0, 0
 		case "mode":
 			if !keyed || !boundaryB {
 				continue
@@ -439,7 +457,7 @@ func genCase(t *rapid.T) Case {
 		c.Ops = append(c.Ops, Op{K: "a2b", Sizes: []int{rapid.SampledFrom(sizes).Draw(t, "w1")}}, Op{K: "b2a", Sizes: []int{rapid.SampledFrom(sizes).Draw(t, "w2")}})
 	}
 	for i := 0; i < n; i++ {
-		k := rapid.SampledFrom([]string{"a2b", "a2b", "b2a", "b2a", "bwrite", "bend", "bstart", "bopen", "bclose", "mode", "export", "handoff", "handoff", "handoff", "bstall", "bresume", "asend", "asend", "brecv", "brecv"}).Draw(t, "op")
+		k := rapid.SampledFrom([]string{"a2b", "a2b", "b2a", "b2a", "bwrite", "bend", "bstart", "bopen", "bclose", "mode", "export", "handoff", "handoff", "handoff", "bstall", "bresume", "asend", "asend", "brecv", "brecv", "rekey"}).Draw(t, "op")
 		op := Op{K: k, N: rapid.IntRange(0, 100000).Draw(t, "n")}
 		if k == "a2b" || k == "b2a" || k == "bopen" || k == "asend" {
 			nf := rapid.SampledFrom([]int{1, 1, 2, 3}).Draw(t, "nframes")
@@ -487,6 +505,8 @@ func TestC15Directed(t *testing.T) {
 		{{K: "bopen", Sizes: []int{100}, N: 0}, {K: "handoff"}, {K: "bclose"}},
 		{{K: "bwrite", N: 10}, {K: "export"}, {K: "handoff"}, {K: "bend"}, {K: "handoff"}, {K: "bstart"}},
 		{{K: "mode", N: 1}, {K: "handoff"}, {K: "mode", N: 0}},
+		{{K: "a2b", Sizes: []int{20}}, {K: "b2a", Sizes: []int{9}}, {K: "rekey"}, {K: "export"}, {K: "a2b", Sizes: []int{20}}, {K: "export"}, {K: "b2a", Sizes: []int{9}}, {K: "handoff"}, {K: "a2b", Sizes: []int{20}}, {K: "b2a", Sizes: []int{9}}},
+		{{K: "a2b", Sizes: []int{20}}, {K: "b2a", Sizes: []int{9}}, {K: "rekey"}, {K: "b2a", Sizes: []int{9}}, {K: "export"}, {K: "rekey"}, {K: "export"}},
 		{{K: "asend", Sizes: []int{30}, N: 2}, {K: "brecv"}, {K: "handoff"}, {K: "brecv"}, {K: "handoff"}, {K: "brecv"}},
 		{{K: "asend", Sizes: []int{5000, 10}, N: 1}, {K: "brecv"}, {K: "export"}, {K: "handoff"}, {K: "b2a", Sizes: []int{9}}, {K: "brecv"}},
 	}
